@@ -91,7 +91,7 @@ class C11(Machine):
                 grid2['h' + d] = [round(v * ext / s, 6) for v in
                                   grid2['h' + d]]
         if not layered and gridding == 'same' and rng.random() < (
-                0.2 if tier == 'thorough' else 0.04):
+                0.2 if tier == 'thorough' else 0.08):
             # automatic gridding, bounded to 8..32 cells per direction
             gridding = rng.choice(['single', 'frequency', 'source', 'both'])
         mw = rng.choice([1, 2, 2, 3, 3, 4, 5, 8, 16, max(2, ntasks),
